@@ -58,9 +58,8 @@ let hop_str (h : hop) : string =
   let samples = String.concat "+" (List.map zs h.h_samples) in
   let nat = match h.h_last_nat with NatNotApplicable -> "na" | NatNotDetected -> "nd" | NatDetected -> "det" in
   let sent = h.h_sent and recv = h.h_recv in
-  let pct x = if int_of_z sent > 0 then qred { qnum = Z.mul x (z_of_int 100); qden = (match sent with Zpos p -> p | _ -> XH) } else { qnum = Z0; qden = XH } in
-  let avg = if int_of_z recv > 0 then qred { qnum = h.h_total_time; qden = (match Z.mul recv (z_of_int 1000000) with Zpos p -> p | _ -> XH) } else { qnum = Z0; qden = XH } in
-  let var = if int_of_z recv > 1 then qred (qdiv h.h_m2 (inject_Z (Z.sub recv (z_of_int 1)))) else { qnum = Z0; qden = XH } in
+  (* derived figures: the Coq definitions of Core/State.v (theorem c05_derived), not OCaml glue *)
+  let avg = hop_avg_ms h and var = hop_variance h in
   String.concat "," [
     zs h.h_ttl; zs sent; zs recv; zs h.h_failed; zs h.h_fwd_lost; zs h.h_bwd_lost;
     oz h.h_last; oz h.h_best; oz h.h_worst; "^" ^ oz h.h_jitter; "^" ^ oz h.h_jmax;
@@ -69,7 +68,7 @@ let hop_str (h : hop) : string =
     (match h.h_last_icmp with None -> "-" | Some t -> D_strat.icmp_str t); nat;
     oz h.h_tos; D_strat.exts_str h.h_exts;
     q_str h.h_javg; q_str h.h_jinta; q_str avg; q_str var;
-    q_str (pct (Z.sub sent recv)); q_str (pct h.h_fwd_lost); q_str (pct h.h_bwd_lost) ]
+    q_str (hop_loss_pct h); q_str (hop_fwd_loss_pct h); q_str (hop_bwd_loss_pct h) ]
 
 let flow_str (f : flow) = String.concat "+" (List.map (function FUnknown -> "*" | FKnown a -> hex a) f)
 
